@@ -186,6 +186,12 @@ def run(tier):
             violated, _ = lrtrace.validate(bad, r2, check, "selftest-php" + family)
             if violated is None:
                 raise core.InfraError("binding self-test failed: a driver trace without its error event was accepted")
+    # malformed for SOME versions only: a heredoc body line that begins with the label and goes on is fine before 7.3 and ends the
+    # heredoc from 7.3 on - under 7.3, 7.4 and with no version given the rest of that line must be reported
+    from . import c03
+    for sig, rep in c03.pre73(check, wp, tier):
+        if sig["class"] == "label-line-not-reported-from-7.3":
+            check.violation(sig, rep)
     check.cov["traces_validated_against_impl"] = check.cov["evaluations"]
     check.assumptions += ["the three edit kinds leave the language for every bracket-balanced program of Syntax.tla (brackets inside string bodies excluded)",
                           "line rule LF/CRLF/CR for error positions"]
